@@ -241,8 +241,12 @@ func gnssTime(prop string, anyStart bool) func(*hx.Ctx) *hx.Outcome {
 						u = T
 					} else {
 						u = ws + int64(t.SF(int(minI64(T-ws, 1<<30)), nil))
-						if t.S(3) == 0 {
+						switch t.S(4) {
+						case 0: // just before the start time
 							u = T - int64(1+t.S(int(minI64(T-ws, 5000))))
+						case 1: // in the first seconds of the week, however late in it the start time is
+							u = ws + int64(t.S(int(minI64(T-ws, 5000))))
+							o.Probe("first-observation-at-the-very-start-of-the-week")
 						}
 						o.Probe("first-observation-before-start")
 					}
@@ -251,6 +255,11 @@ func gnssTime(prop string, anyStart bool) func(*hx.Ctx) *hx.Outcome {
 					o.Probe("first-observation-at-start")
 				default:
 					u = T + int64(t.S(int(minI64(we-T, 1<<30))))
+					if t.S(4) == 0 {
+						// in the last seconds of the week, however early in it the start time is
+						u = we - int64(1+t.S(int(minI64(we-T, 5000))))
+						o.Probe("first-observation-at-the-very-end-of-the-week")
+					}
 					o.Probe("first-observation-after-start")
 				}
 			} else {
